@@ -70,12 +70,14 @@ def run(rep, tier, rng):
             for h in hists:
                 wire = [("f",) if c == "f" else ("w", a if c == "a" else b) for c in h]
                 writes = [c for c in wire if c[0] == "w"]
-                for ending in (0, 1, 2, 3):
+                for ending in (0, 1, 2, 3, 100):
                     if ending == 2 and any(c == "f" for c in h):
                         continue
                     if tier != "thorough" and rng.random() < 0.5 and len(h) == L:
                         continue
                     wire_ending = ending
+                    if ending == 100 and (len(h) > 3 or rng.random() < 0.5):
+                        continue                           # 100: the caller panics, the writer is dropped by the unwinding
                     if ending == 3:
                         # the trailing writes (some of them) are handed together to the bulk helper `write_shapes`
                         # after the calls before them were made one by one
@@ -93,7 +95,7 @@ def run(rep, tier, rng):
     for m in meta:
         base_cases.setdefault(tuple(m["base"]), None)
     rep.cov["rule"] = ("exhaustive histories over {write a, write b, finalize}^<=%d plus %d longer random ones, x 13 types x "
-                       "{with shx, without} x endings {drop, finalize+drop, write_shapes of everything, write_shapes of the last k writes after single calls}; a and b random shapes of the type "
+                       "{with shx, without} x endings {drop, finalize+drop, write_shapes of everything, write_shapes of the last k writes after single calls, drop by an unwinding panic of the caller}; a and b random shapes of the type "
                        "(NaN in Z/M, infinities, sentinel-adjacent values included); bytes and operation traces compared with "
                        "the model; oracle: bytes == bytes of the writes-only history ended by drop, every committing finalize "
                        "leaves a strictly decodable complete file with the right record count, clean finalize issues no "
